@@ -123,6 +123,7 @@ TRet(e) ==
      IN /\ IF r.ok THEN r.e = "" ELSE (r.e \in Errs /\ r.v = 0)
         /\ r.e \in {"qfull", "closed", "dup"} => o.n = 0               \* rejected: store untouched
         /\ (o.op = "add" /\ o.cached) => r.e = "dup"                   \* add on a cached key
+        /\ (o.solo /\ r.e = "dup") => store[o.k] # 0                    \* duplicate: cached, hence stored
         /\ (o.solo /\ r.ok /\ o.op \in {"add", "upd", "uoa", "utl", "utr"}) => store[o.k] = o.d   \* applied
         /\ (o.solo /\ r.ok /\ o.op # "del") =>
               (r.v # 0 /\ (r.v = store[o.k] \/ (o.n > 0 /\ r.v = o.lr)))
